@@ -594,6 +594,9 @@ fn dedup(mut v: Vec<V>) -> Vec<V> {
     out
 }
 
+/// IANA COSE algorithm identifiers used with WebAuthn (signature algorithms and a few others)
+pub const REGISTERED_ALGS: [i64; 22] = [-65535, -260, -259, -258, -257, -47, -46, -45, -44, -39, -38, -37, -36, -35, -9, -8, -7, -6, -5, 1, 3, 5];
+
 pub fn descriptor(i: usize, idlen: usize) -> V {
     V::M(vec![(V::t("id"), V::B(fill_bytes(idlen, 100 + i))), (V::t("type"), V::t(PUBLIC_KEY))])
 }
@@ -630,6 +633,12 @@ pub fn menu(ty: &Ty, id: usize, side: Side) -> Vec<V> {
                 }
             }
             v.push(V::U(*max));
+            // small values with protocol meaning (versions, sub-commands, policies)
+            for x in [1u64, 2, 3, 4, 5] {
+                if x <= *max {
+                    v.push(V::U(x));
+                }
+            }
             if *max > 255 {
                 // values a protocol or an implementation may treat as a default or a limit:
                 // powers of two, decimal round numbers, and the size constants of the protocol
@@ -731,6 +740,9 @@ pub fn menu(ty: &Ty, id: usize, side: Side) -> Vec<V> {
                     V::A(vec![param(-7, PUBLIC_KEY), param(-7, PUBLIC_KEY)]),
                     V::A(long),
                     V::A(vec![param(i32::MIN as i64, PUBLIC_KEY), param(i32::MAX as i64, &fill_text(32, 3))]),
+                    // every registered COSE signature algorithm a platform may offer, the two supported
+                    // ones in the middle
+                    V::A(REGISTERED_ALGS.iter().map(|a| param(*a, PUBLIC_KEY)).collect()),
                 ]
             } else {
                 vec![
@@ -800,6 +812,8 @@ pub fn menu(ty: &Ty, id: usize, side: Side) -> Vec<V> {
                 packed(-7, 71, None),
                 packed(-8, 0, Some(0)),
                 packed(-65537, SIG_MAX, Some(1024)),
+                // x5c present but empty
+                V::M(vec![(V::t("alg"), V::int(-7)), (V::t("sig"), V::B(fill_bytes(64, id))), (V::t("x5c"), V::A(vec![]))]),
             ]
         }
         Ty::EmptyMap => vec![V::M(vec![])],
